@@ -147,7 +147,7 @@ def main(args):
     quick = args.tier == "quick"
     ck.rule = ("schemas = the candidates of spec/mc/MC_Shape that check_schema accepts (every keyword x JSON shape pool, one "
                "level down, reference cases: resolvable / dangling / unretrievable / recursive / ill-founded / target not a "
-               "schema; Draft 3 unknown type names) x 22 instances incl. huge numbers x 4 entry points x 3 checker "
+               "schema; Draft 3 unknown type names; all ordered pairs of 16 individually compilable patterns outside the modelled regex dialect in one patternProperties + additionalProperties) x 22 instances incl. huge numbers x 4 entry points x 3 checker "
                "configurations, each outcome class required to be in the set the specification allows (valid / invalid / "
                "RefResolutionError where a reference may fail / UnknownType where a Draft 3 type name is unknown); plus "
                "random deep accepted schemas with shape mutations and reference insertions judged by TLC "
@@ -207,6 +207,33 @@ def main(args):
             real[rec["id"]] = {"draft": rec["d"], "schema": S, "instance": repr(I), "observed": rec["obs"],
                                "crashes": crashes(rec["obs"])}
             ck.count((rec["d"], repr(S), repr(I)), True)
+    # regular expressions outside the specification's modelled dialect (the verdict is not claimed: "regex" is a soft
+    # out-of-domain marker) that Python's engine compiles -- each ON ITS OWN, which is all the property presupposes: no
+    # crash, in whatever combination they occur in one schema
+    import re
+    exotic = ["(?P<n>a)", "(?P<n>b)", "(?i)b", "(?s).", "(?x) a b", "\\d+", "(a)\\1", "(?=a)b", "(?<=a)b", "(?#c)a", "\\Z", "[\\]]",
+              "a{2,3}", "(?:a|b)+?", "(?m)^b$", "(?a)\\w"]
+    for pat in exotic:
+        re.compile(pat)
+    _setup()
+    rid = 10 ** 7
+    inst = {"a": 1, "b": "x", "AB": None, "aa": [], "": 0}
+    for d in DRAFTS:
+        for p1 in exotic:
+            for p2 in exotic:
+                if p1 == p2:
+                    continue
+                for S in ({"patternProperties": {p1: {}, p2: {"type": "integer"}}, "additionalProperties": False},
+                          {"patternProperties": {p1: {"type": "string"}, p2: {}}, "additionalProperties": {"type": "null"}}):
+                    if (rid % 2 and not quick) or not accepted(d, S):
+                        rid += 1
+                        continue
+                    rid += 1
+                    rec = {"id": rid, "kind": "outcome", "d": d, "S": enc(S), "I": enc(inst), "base": [], "uselib": False,
+                           "pats": regex.pats_table([S]), "obs": observe(d, S, inst, {})}
+                    recs.append(rec)
+                    real[rid] = {"draft": d, "schema": S, "instance": repr(inst), "observed": rec["obs"], "crashes": crashes(rec["obs"])}
+                    ck.count((d, repr(S), "exotic"), True)
     bad, states = tlc.validate_trace("trace/Trace_Outcome.tla", recs, "c03", shards=16, env={"LIB_FILE": lib})
     tlc.cleanup("c03lib")
     ck.states += states
